@@ -109,6 +109,21 @@ CHECKS = {
         note='Trusted: GPy as the definition of the GP; tolerances 1e-6 (values) / 1e-5 (gradients) relative to the kernel '
              'scale, ill-conditioned fits (cond > 1e8) skipped and counted; analytic normal prior.',
         design_ref='4 C10'),
+    'C11': dict(
+        level='model_checking',
+        technique='stateless DFS over every worker schedule of a scripted client driving the real BayesianOptimization '
+                  'loop with a recording stub surrogate and real acquisition rules (visited-state pruning, unpruned trees '
+                  'as cross-check), plus exhaustive product enumeration of acquisition classes x fitted GPs x noise x '
+                  'bounds x priors x seeds',
+        text='For every configuration (acquisition rule, batch_size, batches_per_acquisition, initial-evidence form, '
+             'update_interval, max_parallel_batches 1..3) the complete schedule tree is executed: acquire() must return '
+             'exactly n in-bounds rows, the simulator must receive exactly the acquired rows, a synchronous acquisition must '
+             'see all earlier batches, and the surrogate evidence must equal precomputed + consumed batches in index order '
+             'and be identical for every schedule. With real GPs every acquisition class must return (n,d) in-bounds '
+             'points for all noise settings, bounds and priors, and LCBSC/MaxVar gradients must equal central differences.',
+        note='Trusted: client environment model as in C04; the stub surrogate stands for the GP in schedule exploration '
+             '(real GP runs are schedule-free); numeric-derivative tolerances on well-scaled bounds only.',
+        design_ref='4 C11'),
     'C14': dict(
         level='model_checking',
         technique='explicit-state BFS over model edit histories (add/become/remove/copy/save+load/edits on a copy) on real '
